@@ -47,3 +47,11 @@ Theorem C13_async_form_spec :
 Proof. exact Forms.C13_async_form_spec. Qed.
 Print Assumptions C13_async_form_spec.
 
+
+(** the [IterManager] accessors of the Local and the Concurrent variant (regenerated on every run into gen/Accessors.v): every index
+    getter / setter is a plain, unconditional access of its own field, every liveness getter reads its own flag, every liveness setter
+    writes its own flag and answers "no flag is set any more" - the two variants differ in nothing but the kind of cell *)
+Require MRB.gen.Accessors.
+Theorem C13_accessors_source : forallb (fun x => snd x) Accessors.accessors = true /\ length Accessors.accessors = 24 /\ Accessors.extractor_clean = true.
+Proof. vm_compute. repeat split. Qed.
+Print Assumptions C13_accessors_source.
